@@ -198,6 +198,10 @@ func C03(c *core.Ctx) {
 				c.Undecided("C03-R2", key, call.Pos(), "the percentage base is not a local variable")
 				continue
 			}
+			if pi, isParam := paramIndex(fd.Obj, bv); isParam && pi >= 0 && bv.Name() == "sum" && len(core.NewLocalDefs(info, fd.Decl.Body).All(bv)) == 0 {
+				c.Ob("C03-R2", key, call.Pos(), true, "") // the rule-rounded line sum itself
+				continue
+			}
 			defs := core.ReachingDefs(info, fd.Decl.Body, bv, call)
 			ok, why := len(defs) > 0, "no reaching definition found"
 			for d := range defs {
@@ -226,7 +230,7 @@ func C03(c *core.Ctx) {
 				"the base of a percentage line discount/charge is neither the rule-rounded line sum nor last assigned from tax.ApplyRoundingRule ("+why+"): under the 'currency' rule the amount keeps hidden decimals and line total != sum - discounts + charges as presented")
 		}
 		if n == 0 {
-			c.Ob("C03-R2", fd.Name()+"#percent-base", fd.Decl.Pos(), false, "no percentage amount computed here")
+			c.Ob("C03-R2", fd.Name()+"#percent-base", fd.Decl.Pos(), false, "NOT FOUND: no percentage amount computed in this function")
 		}
 		// the sum handed in is the rule-rounded one
 		for _, cf := range p.Funcs(p.Pkg("bill")) {
